@@ -234,16 +234,19 @@ def monitorC04 (script : List Cmd) (iters : List Iter) (d : Nat) : Option String
       | .verify d' .. => if d' == d then some k else none      -- verify shortens lifetimes: stop judging
       | _ => none).foldl min itArr.size
     let evs := chanEvents iters d ch
-    let browsedTypes := [ty]
+    -- a packet is certainly "for us" when one of its PTR answers is for this browse or for another
+    -- type that is certainly being browsed when it arrives (two searches may reach one instance:
+    -- its type and a subtype of it)
+    let mine (x : Deliv) : Bool := forUs (ty :: browsedAt calls d x.k) x
     (List.range itArr.size).findSome? fun k =>
       if k ≤ k0 || k ≥ kEnd || (itArr[k]?.map (·.d != d)).getD true then none else
       let t := (itArr[k]?.map (·.now)).getD 0
       -- usable, with the one-second margin the daemon itself applies
       let live (x : Deliv) : Bool :=
-        x.k > k0 && x.k ≤ k && forUs browsedTypes x && !purgedBetween calls d x.k k &&
+        x.k > k0 && x.k ≤ k && mine x && !purgedBetween calls d x.k k &&
         -- a copy in a packet that is not for us refreshes a cached record only while one is
         -- still cached; on the safe side it never counts as a refresh here
-        decide (t + 1000 < validUntilOf (forUs browsedTypes) ds x k)
+        decide (t + 1000 < validUntilOf mine ds x k)
       let insts := (ds.filter fun x => live x && x.r.ty == 12 && x.r.name == ty).filterMap fun x =>
         match x.r.rdata with | .ptr n => some n | _ => none
       insts.eraseDups.findSome? fun f =>
